@@ -453,6 +453,14 @@ func (c *specCtx) localName(name string) (tv, bool) {
 						continue
 					}
 				}
+				if (c.inIter || c.inOld) && !nb[i].addr {
+					// the state talked about is not the current one: a variable that
+					// lives in memory (a local struct, an address-taken local) has the
+					// value its cell held in that state, not the value last assigned
+					if av, ok := c.addrBinding(name, b); ok {
+						return get(av, true)
+					}
+				}
 				return get(nb[i].val, nb[i].addr)
 			}
 			for _, ins := range b.Instrs {
@@ -494,6 +502,26 @@ func (c *specCtx) localName(name string) (tv, bool) {
 		}
 	}
 	return tv{}, false
+}
+
+// addrBinding finds the memory cell of a source variable: a debug reference by
+// address to it in block b or one of its dominators.
+func (c *specCtx) addrBinding(name string, b *ssa.BasicBlock) (ssa.Value, bool) {
+	fr := c.fr
+	for ; b != nil; b = b.Idom() {
+		nb := fr.names[b]
+		for i := len(nb) - 1; i >= 0; i-- {
+			if nb[i].name == name && nb[i].addr {
+				if _, defined := fr.vals[nb[i].val]; defined {
+					return nb[i].val, true
+				}
+				if _, isAlloc := nb[i].val.(*ssa.Alloc); isAlloc {
+					return nb[i].val, true
+				}
+			}
+		}
+	}
+	return nil, false
 }
 
 func (c *specCtx) selectField(a tv, name string) (tv, error) {
